@@ -254,6 +254,44 @@ def rgbToHsvQ (r g b : Rat) : Rat × Rat × Rat :=
 /-- rgb -> hsv -> rgb over exact rationals -/
 def hsvRoundTripQ (r g b : Rat) : RgbQ := let (h, s, v) := rgbToHsvQ r g b; hsvToRgbQ h s v
 
+/-! ### hsl over exact rationals: the case split of hsl.hpp (thresholds 10^-3 / 10^-4, saturation clamp of fix 154d970) -/
+
+def rgbToHslQ (r g b : Rat) : Rat × Rat × Rat :=
+  let mn := min r (min g b); let mx := max r (max g b)
+  if absQ (mn - mx) < 1/1000 then (0, 0, r)
+  else
+    let diff := mx - mn
+    let sum := mx + mn
+    let l := (mn + mx) / 2
+    let sat := if l < 1/2 then diff / sum else diff / (2 - sum)
+    let sat := if sat > 1 then 1 else sat
+    let h := if absQ (mx - r) < 1/10000 then (g - b)/diff else if absQ (mx - g) < 1/10000 then 2 + (b - r)/diff else 4 + (r - g)/diff
+    let h := h / 6
+    let h := if h < 0 then h + 1 else h
+    (h, sat, l)
+
+def hslChanQ (t1 t2 tc : Rat) : Rat :=
+  if tc < 1/6 then t1 + (t2 - t1) * 6 * tc
+  else if tc < 1/2 then t2
+  else if tc < 2/3 then t1 + (t2 - t1) * ((2/3) - tc) * 6
+  else t1
+
+def hslToRgbQ (h s l : Rat) : RgbQ :=
+  if absQ s < 1/10000 then ⟨l, l, l⟩
+  else
+    let t2 := if l < 1/2 then l * (1 + s) else (l + s) - (l * s)
+    let t1 := 2 * l - t2
+    let tr := h + 1/3
+    let tr := if tr > 1 then tr - 1 else tr
+    let tg := h
+    let tb := h - 1/3
+    let tb := if tb < 0 then tb + 1 else tb
+    ⟨hslChanQ t1 t2 tr, hslChanQ t1 t2 tg, hslChanQ t1 t2 tb⟩
+
+/-- rgb -> hsl -> rgb over exact rationals -/
+def hslRoundTripQ (r g b : Rat) : RgbQ := let (h, s, l) := rgbToHslQ r g b; hslToRgbQ h s l
+
+
 /-! ### Spec helpers -/
 def inUnit (x : Float32) : Bool := x.toFloat ≥ 0 && x.toFloat ≤ 1
 
